@@ -62,7 +62,8 @@ def run_convs(pid, convs, rep, keys=("wire", "cbs", "closed", "rets"), monitors=
                 hits.append((c, "Serve returned %s" % r.get("serve_err"), r, i))
         return diffs, hits
 
-    key_of = lambda v: v.split(":")[0][:60]
+    import re as _re
+    key_of = lambda v: _re.sub(r"\d+", "#", v.split(":")[0][:60])     # the clause, without the measured numbers
     diffs, monitor_hits = evaluate([(i, c, e, r) for i, (c, e, r) in enumerate(zip(convs, exp, results))])
     n_unconfirmed = 0
     if confirm and kinds is None and (diffs or monitor_hits):
